@@ -17,9 +17,22 @@ pub open spec fn eq_is_identity(m: Multiset<SpacePoint>) -> bool {
 
 // Euclidean distance of two space points (SpacePoint::distance: cos, sin, powi, sqrt over uom quantities), opaque
 pub uninterp spec fn sp_dist(a: SpacePoint, b: SpacePoint) -> Length;
+pub uninterp spec fn sp_x(a: SpacePoint) -> Length;
+pub uninterp spec fn sp_y(a: SpacePoint) -> Length;
+pub uninterp spec fn len_hypot(a: Length, b: Length) -> Length;
 impl SpacePoint {
     #[verifier::external_body]
     pub fn distance(self, other: SpacePoint) -> (r: Length) ensures r == sp_dist(self, other) { unimplemented!() }
+    // the other public coordinate accessors, so that a body that starts using them is still verified (against `near`) instead of
+    // becoming undecided
+    #[verifier::external_body]
+    pub fn x(self) -> (r: Length) ensures r == sp_x(self) { unimplemented!() }
+    #[verifier::external_body]
+    pub fn y(self) -> (r: Length) ensures r == sp_y(self) { unimplemented!() }
+}
+impl Length {
+    #[verifier::external_body]
+    pub fn hypot(self, other: Length) -> (r: Length) ensures r == len_hypot(self, other) { unimplemented!() }
 }
 pub open spec fn near(a: SpacePoint, b: SpacePoint, d: Length) -> bool { l_le(sp_dist(a, b), d) }
 
